@@ -170,7 +170,47 @@ CLAIMS = {
 }
 
 
+# rules added after the first version (DESIGN.md sections 14/15); appended to the level text of the check
+ADDENDA = {
+    "C01": "Letter level (R01.7/R01.8): in the caller's context no update_value of a value-taking option is reachable for a short token with several letters; "
+           "try_parse_as_toggle accumulates count(short_name()) of the matched toggles, compares with the bundle size and raises parsing_error on a mismatch "
+           "(recognised accounting idiom; another idiom is reported as analysis-broken); matches() is true only under equality of name() with a whole-name accessor "
+           "of the token, and those accessors return the entire name behind their prefix.",
+    "C02": "Toggle counts (R02.6 = R11.1/R11.6): the count is reset to literal 0 by prepare() and incremented once per token in the required form.",
+    "C03": "R03.6 (= R14.2): prepare() empties the value state on every path, through assignment operators that really overwrite, so a value of an earlier parse cannot outrank the environment.",
+    "C04": "R04.5 (no spurious error, two necessary conditions): every parse starts from emptied value state (R14.2) and an option claims a token only under its own whole name or letter (R01.5/7/8).",
+    "C05": "R10.4 additions: the destructor can bypass logger::log only on the no-record edge (emits-whenever-record); no record attribute is set after will_log was asked.",
+    "C06": "R06.9: begin/cbegin address slot 0, end/cend slot size_, reverse accessors are built on them. Range algorithms writing into the storage are bounded like subscripts. "
+           "Every function that writes at or beyond size_ without having installed storage itself is an instance of the moved-from-capacity finding (listed one by one).",
+    "C07": "R07.1 is path-sensitive: a field need not be written on a path whose branch established field == source.field; an in-place element copy counts for data_.",
+    "C08": "The loop equation is decided by abstract interpretation over symbolic positions (sa/strsym.py: before-loop / one generic iteration / after-loop; no solver): "
+           "pieces == [format[I,P), text(arg)], cursor' == P+L, both iterators advance once, tail format[I,END).",
+    "C09": "R09.6: the scoped lock object is built by a blocking constructor (no defer/try/adopt/timeout argument); the mutex is a standard one, or a hand-written lockable whose acquire loop "
+           "is verified (must-dataflow: compare_exchange's expected value is `free` on every path into the call; lock() returns only through the success edge; unlock stores `free`).",
+    "C10": "R10.4 additions as for C05 (emits-whenever-record, filter-sees-complete-record); edge dominance is exact and negation-aware.",
+    "C11": "R11.6 count reset to literal 0 in prepare(); R11.7 one integral type for count, default member, default_value() parameter and given(); R11.4 also accepts the constant-table idiom.",
+    "C12": "is_value() is proved equivalent to `does not start with a dash` (two entailments); R12.5 evaluates the index handed to at() as a linear form per sign of the parameter; "
+           "R12.7 who-may-write: only accept_positionals() sets the accepted count, only greedy_postionals() the greedy switch.",
+    "C13": "R13.5 addition: the back-reference is rewritten in a loop over the container that owns the groups (a derived list may omit the default group).",
+    "C15": "R15.2 who-may-write the creation-order lists (append at creation, whole hand-over on move, nothing else). R15.5 necessary conditions of the 80-column clause: the full width is "
+           "granted only at the pad column, the budget cannot wrap (signed or guarded), every written word is charged.",
+    "C17": "R17.2 scan direction: no backward search primitive (occurrences are chosen in one left-to-right pass).",
+    "C18": "R18.6 quaint_ptr's move operations are unique_ptr's own (defaulted) or delegate to them. R18.4 additions: every assignment operator of optional overwrites the storage on all paths; "
+           "the copy assignment does not read the source after releasing its own storage (self-assignment).",
+    "C20": "AST rules are role-based (a member is what the constructor initialises it from). R20.5 (= R06.9): fixed_vector's iterator accessors delimit exactly its elements.",
+}
+TECH = {
+    "C08": "taint-style subject analysis of searches + regex-literal language equality + must-facts on the arity guards + abstract interpretation of the text-assembling loop over symbolic positions",
+    "C09": "lock-scope must-dataflow over the CFG + storage/linkage rules for the mutex + acquire-loop typestate check for hand-written lockables + who-may-touch call-graph rule",
+    "C20": "type-level matrix (static_assert) + role-based structural rules on the adaptor patterns (roles derived from constructors) + storage scan + shared iterator-bound rule",
+}
+
+
 def main():
+    for k, v in ADDENDA.items():
+        CLAIMS[k]["text"] = CLAIMS[k]["text"].rstrip() + " " + v
+    for k, v in TECH.items():
+        CLAIMS[k]["technique"] = v
     props = [json.loads(l) for l in open(os.path.join(HERE, "properties.jsonl"))]
     na_reasons = {}
     p = os.path.join(HERE, "tools", "not_applicable.json")
